@@ -484,6 +484,10 @@ def _iter_code(mod):
             if hasattr(o, 'func') and hasattr(getattr(o, 'func'), '__code__'):   # cached_property
                 yield from walk(o.func.__code__)
                 continue
+            cb = getattr(o, 'callback', None)            # click commands
+            if cb is not None and hasattr(cb, '__code__'):
+                yield from walk(cb.__code__)
+                continue
             c = getattr(o, '__code__', None)
             if isinstance(c, types.CodeType) and getattr(o, '__module__', mod.__name__) == mod.__name__:
                 yield from walk(c)
